@@ -171,9 +171,31 @@ def gen_net(rng, cls, json_only=False, empties=True, min_edges=0, max_edges=7, n
     return net, {"nkind": nkind, "ekind": ekind, "feats": feats, "hist": hist, "cls": cls}
 
 
-def mutate(rng, net):
+def rebuild(net):
+    """A fresh object equal to `net`, built call by call through the public API (never converted, written or cached before).  None if that fails."""
+    from copy import deepcopy
+
+    new = type(net)()
+    for k, v in net._net_attr.items():
+        new[k] = deepcopy(v)
+    for n in net.nodes:
+        new.add_node(n, **deepcopy(dict(net.nodes[n])))
+    if isinstance(net, xgi.DiHypergraph):
+        for e in net.edges:
+            t, h = net.edges.dimembers(e)
+            new.add_edge((sorted(t, key=repr), sorted(h, key=repr)), idx=e, **deepcopy(dict(net.edges[e])))
+    elif isinstance(net, xgi.SimplicialComplex):
+        new.add_simplices_from([(sorted(net.edges.members(e), key=repr), e, deepcopy(dict(net.edges[e]))) for e in net.edges])
+    else:
+        for e in net.edges:
+            new.add_edge(sorted(net.edges.members(e), key=repr), idx=e, **deepcopy(dict(net.edges[e])))
+    return new if valid(new) and obs(new).brief() == obs(net).brief() else None
+
+
+def mutate(rng, net, new_labels=True):
     """Change `net` in place through the public API, keeping the node and edge ID sets where the class allows it
-    (a cache keyed on the object or on its IDs then serves stale data).  -> list of the calls made ([] = nothing changed)."""
+    (a cache keyed on the object or on its IDs then serves stale data).  -> list of the calls made ([] = nothing changed).
+    new_labels=False: no node label and no edge ID is introduced that the network did not have."""
     done = []
     nodes, edges = list(net.nodes), list(net.edges)
     di = isinstance(net, xgi.DiHypergraph)
@@ -198,16 +220,17 @@ def mutate(rng, net):
                     n = rng.choice(sorted(mem, key=repr))
                     net.remove_node_from_edge(e, n)
                     done.append(f"remove_node_from_edge({e!r}, {n!r})")
-    if sc and nodes:
-        if edges and rng.random() < 0.5:
+    if sc and nodes and (edges or new_labels):
+        if edges and (not new_labels or rng.random() < 0.5):  # (add_simplex would also introduce new automatic edge IDs)
             e = rng.choice(edges)
             net.remove_simplex_id(e)
             done.append(f"remove_simplex_id({e!r})")
         else:
             fresh = max(nodes) + 1 if all(type(n) is int for n in nodes) else str(nodes[0]) + "_m"  # same label type as the others
-            mem = rng.sample(nodes, min(len(nodes), rng.randint(1, 3))) + [fresh]
-            net.add_simplex(mem)
-            done.append(f"add_simplex({mem!r})")
+            mem = rng.sample(nodes, min(len(nodes), rng.randint(1, 3))) + ([fresh] if new_labels else [])
+            if not net.has_simplex(mem):
+                net.add_simplex(mem)
+                done.append(f"add_simplex({mem!r})")
     if not done or rng.random() < 0.5:
         if nodes:
             n = rng.choice(nodes)
